@@ -550,6 +550,20 @@ def unit_reuse(ctx):
     if warm == "all-operations":
         if not run_all("first-use"):
             return
+        # the user relabels / overwrites a RESULT: the field it was computed from is not touched by that
+        if nvdim > 1 and len(n) > 1:
+            r = f.integrate(mesh.region.dims[0])
+            snap = C.field_snap(f)
+            try:
+                r.vdims = [f"w{i}" for i in range(nvdim)]
+                r.array[...] = 0.0
+            except Exception as e:
+                ctx.note(f"relabelling-a-result-refused:{type(e).__name__}")
+            ctx.check()
+            if C.field_snap(f) != snap:
+                ctx.fail("reuse/field-changed-through-a-result", f"after relabelling / overwriting integrate({mesh.region.dims[0]}) "
+                         f"the field has vdims {f.vdims} mapping {f.vdim_mapping}", instance=inst)
+                return
     if transform is not None:
         ctx.step(1, f"in place: {transform}")
         if transform[0] == "scale":
@@ -561,6 +575,46 @@ def unit_reuse(ctx):
     if transform is not None or warm == "none":
         run_all("after-in-place-transformation" if transform is not None else "first-use")
 
+def unit_settings(ctx):
+    """mesh settings that do not enter the numbers: boundary conditions (periodic, 'neumann', 'dirichlet') combined with
+    dimension names that are letters of those keywords, distinct units per axis.  Every operation must still work, give
+    the exact numbers and live on the mesh with the integrated axis removed (names AND units of the remaining axes)."""
+    ndim = ctx.choose("ndim", [2, 3, 4, 1])
+    names = ctx.choose("dims", [("x", "y", "z", "t"), ("a", "e", "n", "d"), ("i", "r", "c", "h")])[:ndim]
+    bc = ctx.choose("bc", ["", "neumann", "dirichlet", "periodic-first-axis", "periodic-all-axes"])
+    n = [3, 2, 2, 1][:ndim]
+    cell = [0.5, 2.0, 0.25, 1.5][:ndim]
+    pmin = [0.25, -1.0, 3.0, 0.0][:ndim]
+    pmax = [a + c * k for a, c, k in zip(pmin, cell, n)]
+    units = C.UNITS_DISTINCT[:ndim]
+    bcs = {"": "", "neumann": "neumann", "dirichlet": "dirichlet", "periodic-first-axis": names[0], "periodic-all-axes": "".join(names)}[bc]
+    mesh = df.Mesh(region=df.Region(p1=pmin, p2=pmax, dims=names, units=units), n=n, bc=bcs)
+    vals = C.tracer(n, 2, ctx.seed)
+    f = df.Field(mesh, nvdim=2, value=vals)
+    inst = ctx.key()
+    for name, (call, ex, mag) in _ops_expected(np.array(f.array), f.mesh).items():
+        ctx.step(1, name)
+        raised, r = C.raises(call, f)
+        ctx.check(2)
+        if raised:
+            ctx.fail("settings/operation-raises", f"{name} on dims {names} with bc {bcs!r}: {type(r).__name__}: {str(r)[:150]}", instance=inst)
+            return
+        got = _raw(r, 2)
+        if got.size != np.asarray(ex).size or np.any(np.abs(got.reshape(np.asarray(ex).shape) - ex) > 16 * REL * np.asarray(mag) + 5e-324):
+            ctx.fail("settings/number-wrong", f"{name} on dims {names} with bc {bcs!r}", instance=inst)
+            return
+        ctx.observe(np.round(got.ravel() / (np.max(np.abs(ex)) or 1.0), 9))
+        if isinstance(r, df.Field) and ndim > 1 and "cumulative" not in name and name not in ("integrate()", "mean()"):
+            d = name[name.index("(") + 1:name.index(")")]
+            k = list(names).index(d)
+            rest = [i for i in range(ndim) if i != k]
+            ctx.check()
+            if tuple(r.mesh.region.dims) != tuple(names[i] for i in rest) or tuple(r.mesh.region.units) != tuple(units[i] for i in rest):
+                ctx.fail("settings/result-mesh-names-or-units", f"{name}: result has dims {r.mesh.region.dims} units "
+                         f"{r.mesh.region.units}; the remaining axes are {[names[i] for i in rest]} with units {[units[i] for i in rest]}",
+                         instance=inst)
+                return
+
 
 def units(tier):
     return [
@@ -570,4 +624,5 @@ def units(tier):
         {"name": "mean_sets", "fn": unit_mean_sets, "bound": None},
         {"name": "translation", "fn": unit_translation, "bound": None},
         {"name": "reuse", "fn": unit_reuse, "bound": None},
+        {"name": "settings", "fn": unit_settings, "bound": None},
     ]
